@@ -289,12 +289,15 @@ def run_batch(batch_name, seed=0, keep=True, retry=True):
     secondary = [l for l in limits if l['fn'] in errfns]
     limits = [l for l in limits if l['fn'] not in errfns]
     res['secondary_limits'] = [l['fn'] for l in secondary]
+    # a canary (`ensures false`) that runs out of resources was not proved either: it counts as failed-as-expected
+    canary_limits = [l for l in limits if l.get('canary')]
+    limits = [l for l in limits if not l.get('canary')]
     if limits:
         res['status'] = 'tool'
         res['problems'].append('resource limit: ' + '; '.join(f"{t['fn']}" for t in limits[:8]))
     # canaries
     canary_fns = [f for f in fnmap if f['canary']]
-    failed_canaries = set(e['fn'] for e in errors if e['canary'])
+    failed_canaries = set(e['fn'] for e in errors if e['canary']) | set(l['fn'] for l in canary_limits)
     passing_canaries = [f['label'] for f in canary_fns if f['label'] not in failed_canaries]
     if passing_canaries and res['status'] == 'ok':
         res['status'] = 'tool'
